@@ -138,6 +138,27 @@ claim("C20", "concurrent stress under the Go race detector with rapid-generated 
       "(storage, client state, mailer, logger) and by GOMAXPROCS 2/4/16. Oracle: (1) the race detector (test binary built with -race, halt on first report; the case in flight is the replay) and (2) each client's transcript equals the one of the same script run alone in a fresh world.",
       TRUST + " Interleavings are sampled, not enumerated: cross-talk that needs one specific interleaving may be missed (DESIGN.md §6).", engine="concurrent-stress")
 
+# What the seeding rounds added (DESIGN.md 8.5 / 8.6), appended to the level text
+ADD = {
+ "C01": " A share of the requests runs with one backend call failed, with a spoiled JSON body or an unparsable query string: the rules are safety rules and apply unchanged.",
+ "C02": " A share of the requests runs with one backend call failed; TOTP codes are also submitted cut to their leading/trailing digits or blank-padded; Setup() calls before or after Init().",
+ "C03": " A share of the requests runs with one backend call failed (no failure may let a locked / unconfirmed account in).",
+ "C04": " Login steps also run with one backend call failed (a surfaced error resyncs the model, a clean report is judged normally), with one-time TOTP users (a repeated code is a failure) and, in JSON mode, with unparsable query strings.",
+ "C05": " Token-consuming requests also run with one backend call failed (nothing saved -> no success report, token stays outstanding); opening the mailed link (GET) must change nothing.",
+ "C06": " Garbage and mangled remember cookies are planted in the browsers that perform the change.",
+ "C08": " A second test (TestC08World) judges the safety half inside whole request chains: behind the remember/expire middleware, over all flows, with backend faults - a protected probe ran only if the pre-request session (or a completed remember re-authentication) satisfied the requirement. Return targets are compared on the RFC 3986-normalised escaped path.",
+ "C09": " Lock and remember may be loaded; login steps also run with one backend call failed; the expiry verdict uses the stamp's real (one-second) precision with gaps ExpireAfter-2 s, ExpireAfter, ExpireAfter+1 s.",
+ "C10": " Methods include HEAD, PATCH and OPTIONS.",
+ "C12": " The steps that use a one-time value also run with one backend call failed: a session (or parked login) then still implies the value was unused and is gone from storage; the code that confirmed a TOTP enrolment counts as last accepted code.",
+ "C13": " Enrolment requests also run with one backend call failed; the e-mail authorisation is modelled per account (it authorises only the account the token was mailed to); the deprecated RoutesRedirectOnUnauthed flag is a configuration dimension.",
+ "C14": " The state parameter may also be absent altogether.",
+ "C15": " The browser may already be logged in (as the same or another account) before the flow; the OAuth2 start answer is judged like the final one.",
+ "C16": " Both worlds first serve a generated prelude of requests (the pair is compared after a history, not only on a fresh account); the recover pair also runs with the mail sender or renderer failing.",
+ "C17": " A share of the requests runs with one backend call failed, with a spoiled JSON body or an unparsable query string (error paths log too).",
+ "C18": " A request that never returns (watchdog) is a violation; identifiers include one-character names; a reported password recovery must have removed older remember tokens.",
+ "C20": " A second, sequential test (TestC20Faults) runs client A's script with backend faults and then client B on the same instance: B's transcript must equal B alone and every request must return.",
+}
+
 NOT_YET = "check not built yet in this round (claimed in DESIGN.md; will be claimed once its check is committed)"
 
 def main():
@@ -156,7 +177,7 @@ def main():
             "evidence_file": "/verif/evidence/%s.json" % pid,
             "replay_cmd_template": "./check %s --replay {path}" % pid,
             "engine": c["engine"],
-            "level_claimed": {"category": c["level"], "text": c["text"], "design_ref": "DESIGN.md §3.%s" % pid},
+            "level_claimed": {"category": c["level"], "text": c["text"] + ADD.get(pid, ""), "design_ref": "DESIGN.md §3.%s" % pid},
             "level_note": c["note"],
             "technique": c["technique"],
         })
